@@ -121,10 +121,10 @@ def residue_pools(mc, max_present=2):
 SAFETY = ["TypeOK", "PathContinuous", "NoC01", "NoC03", "NoC04", "NoC05", "NoC10", "Completed"]
 
 
-def explore(work, inst, name, pools, statuses=("PASS", "FAIL"), maxbounce=1, lazy=None, maxtries=1, invariants=SAFETY, timeout=3000, ownunexplored=None):
+def explore(work, inst, name, pools, statuses=("PASS", "FAIL"), maxbounce=1, lazy=None, maxtries=1, invariants=SAFETY, timeout=3000, ownunexplored=None, live=False):
     C.stage_specs(work, os.path.join(C.SPECS, "traversal"))
     mc = model_constants(inst)
-    write_mc(work, name, mc, pools, "Spec", statuses, maxtries=maxtries, maxconc=max(maxtries, 1), maxbounce=maxbounce,
+    write_mc(work, name, mc, pools, "LiveSpec" if live else "Spec", statuses, extra_cfg="PROPERTY NoSpin\n" if live else "", maxtries=maxtries, maxconc=max(maxtries, 1), maxbounce=maxbounce,
              lazy=inst.lazy if lazy is None else lazy,
              invariants=invariants, constraint="BounceBound", ownunexplored=ownunexplored)
     return C.run_tlc(work, name, name + ".cfg", timeout=timeout, heap="24g"), mc
